@@ -541,6 +541,10 @@ func execC20(r *sim.Run) {
 	case 0:
 		c20TwoSided(r)
 	case 1:
+		if r.Bool(1, 8, "faultySource") {
+			c20FaultySource(r)
+			return
+		}
 		c20OneSided(r)
 	case 2:
 		c20Unordered(r)
@@ -912,6 +916,159 @@ func c20Terminal(r *sim.Run, it fp.Iterator[int], ref []int, desc string) {
 		r.Gate("ret")
 		if fmt.Sprint([]int(left)) != fmt.Sprint(rest) {
 			r.Violate("wrong-element", "%s: after %s(p%d) the iterator still delivers %v, reference %v (elements %v)", desc, names[k], a, left, rest, ref)
+		}
+	})
+	c20Quiesce(r)
+}
+
+// c20FaultySource: injected fault - one Next of a source fails (panics) once, the consumer recovers and carries on, as
+// with an I/O error that goes away. Sources are the inner iterators of FlatMap / Flatten / Concat pipelines or the outer
+// source. After the fault the iterator may have lost elements of the faulted source from the fault position on,
+// nothing else: everything it delivers is the reference in order, a true HasNext is followed by a Next that
+// delivers, HasNext stays idempotent, and the iterator ends (HasNext false, Next panics) within a bounded number of calls.
+type c20fault struct{}
+
+func c20FaultySource(r *sim.Run) {
+	r.Case = "faulty-source"
+	n := 1 + r.Choose(5, "n")
+	type el struct{ src, idx, v int }
+	var ref []el
+	sizes := make([]int, n)
+	for j := range sizes {
+		sizes[j] = r.Choose(4, "innerLen")
+		for k := 0; k < sizes[j]; k++ {
+			ref = append(ref, el{j, k, j*100 + k})
+		}
+	}
+	// the fault: source fj fails at its element fk (fk may be its last one), advancing past it or not
+	fj := r.Choose(n, "faultSrc")
+	if sizes[fj] == 0 {
+		sizes[fj] = 1
+		ref = nil
+		for j := range sizes {
+			for k := 0; k < sizes[j]; k++ {
+				ref = append(ref, el{j, k, j*100 + k})
+			}
+		}
+	}
+	fk := r.Choose(sizes[fj], "faultIdx")
+	if r.Bool(1, 2, "faultAtLast") {
+		fk = sizes[fj] - 1
+	}
+	advance := r.Bool(1, 2, "faultAdvances")
+	fired := false
+	mkInner := func(j int) fp.Iterator[int] {
+		i := 0
+		return fp.MakeIterator(func() bool { r.Gate("src"); return i < sizes[j] }, func() int {
+			r.Gate("src")
+			if i >= sizes[j] {
+				panic("next on empty iterator (inner source)")
+			}
+			if j == fj && i == fk && !fired {
+				fired = true
+				r.Fault("source-next-fails-once")
+				if advance {
+					i++
+				}
+				panic(c20fault{})
+			}
+			v := j*100 + i
+			i++
+			return v
+		})
+	}
+	outer := make([]int, n)
+	for j := range outer {
+		outer[j] = j
+	}
+	variant := r.Choose(5, "faultyVariant")
+	names := [...]string{"Iterator.FlatMap", "iterator.FlatMap", "iterator.Flatten(Map)", "Concat chain", "iterator.FlatMap.Filter"}
+	var it fp.Iterator[int]
+	switch variant {
+	case 0:
+		it = iterator.FromSlice(outer).FlatMap(mkInner)
+	case 1:
+		it = iterator.FlatMap(iterator.FromSlice(outer), mkInner)
+	case 2:
+		it = iterator.Flatten(iterator.Map(iterator.FromSlice(outer), mkInner))
+	case 3:
+		it = iterator.Empty[int]()
+		for j := range outer {
+			it = it.Concat(mkInner(j))
+		}
+	default:
+		it = iterator.FlatMap(iterator.FromSlice(outer), mkInner).Filter(func(int) bool { return true })
+	}
+	desc := fmt.Sprintf("%s over inner sources of sizes %v, source %d fails once at its element %d (advancing=%v)", names[variant], sizes, fj, fk, advance)
+	r.MixFingerprintS(desc)
+	r.Logf("faulty source: %s", desc)
+	r.NonTrivial()
+	r.Go("consumer", func(t *sim.Task) {
+		var got []int
+		faultSeen := false
+		call := func(f func()) (p any) {
+			t.Yield("call")
+			defer func() { p = recover(); r.Gate("ret") }()
+			f()
+			return nil
+		}
+		finished := false
+		for step := 0; step < len(ref)+6 && !finished; step++ {
+			var h, h2 bool
+			if p := call(func() { h = it.HasNext() }); p != nil {
+				if _, ok := p.(c20fault); ok && !faultSeen {
+					faultSeen = true // a look-ahead pulled the failing element: the failure surfaces in HasNext
+					continue
+				}
+				r.Violate("hasnext-panic", "%s: HasNext panicked after %v: %v", desc, got, p)
+				return
+			}
+			if p := call(func() { h2 = it.HasNext() }); p != nil || h2 != h {
+				if _, ok := p.(c20fault); ok && !faultSeen {
+					faultSeen = true
+					continue
+				}
+				r.Violate("hasnext-wrong", "%s: HasNext returned %v and then %v (panic %v) with no Next in between, delivered %v", desc, h, h2, p, got)
+				return
+			}
+			var v int
+			p := call(func() { v = it.Next() })
+			switch {
+			case p == nil && h:
+				got = append(got, v)
+			case p == nil && !h:
+				r.Violate("next-fabricated", "%s: Next after a false HasNext returned %d (delivered %v)", desc, v, got)
+				return
+			case !h:
+				finished = true
+			default:
+				if _, ok := p.(c20fault); ok && !faultSeen {
+					faultSeen = true
+					continue
+				}
+				r.Violate("next-panic", "%s: Next after a true HasNext panicked: %v (delivered %v, injected failure already seen: %v)", desc, p, got, faultSeen)
+				return
+			}
+		}
+		if !finished {
+			r.Violate("hasnext-wrong", "%s: the iterator does not end: %d calls after the injected failure it still reports elements (delivered %v)", desc, len(ref)+6, got)
+			return
+		}
+		// delivered = reference in order, minus (possibly) elements of the failed source from the failure position on
+		i := 0
+		for _, e := range ref {
+			if i < len(got) && got[i] == e.v {
+				i++
+				continue
+			}
+			if fired && e.src == fj && e.idx >= fk {
+				continue // may be lost
+			}
+			r.Violate("wrong-element", "%s: delivered %v; element %d of source %d (%d) is missing although that source did not fail there", desc, got, e.idx, e.src, e.v)
+			return
+		}
+		if i != len(got) {
+			r.Violate("wrong-element", "%s: delivered %v, which is not the reference order (or repeats an element)", desc, got)
 		}
 	})
 	c20Quiesce(r)
